@@ -511,3 +511,38 @@ Proof.
   - right; now left.
   - simpl. lra.
 Qed.
+
+(* ---------------------------------------------------------------- the knee of MaxLikeInf
+   MaxLikeInf._specific_analysis keeps the elementary slope and intercept and reports ND = _transition_cycles(SD) for the
+   endurance limit SD its optimiser returned: the knee is the elementary line evaluated at SD.  Whatever SD the optimiser
+   returns, the knee follows the unit of the cycle axis exactly, is independent of the load unit, and moves with an error
+   factor q of SD by exactly q^slope = q^(-k_1) -- the only way in which optimiser noise can reach ND. *)
+Definition knee_at (d : data) (sd : R) : R :=
+  transition_cycles (fit_slope (finite_fractures d)) (fit_icpt (finite_fractures d)) sd.
+
+Theorem knee_at_cycle_equivariant c d sd : 0 < c -> positive d -> finite_fractures d <> [] ->
+  knee_at (scale_cycles c d) sd = c * knee_at d sd.
+Proof.
+  intros Hc Hp Hne. unfold knee_at. rewrite ff_scale_cycles.
+  destruct (fit_scale_cycles c (finite_fractures d) Hc (positive_ff d Hp) Hne) as [Hs Hi]. rewrite Hs, Hi.
+  unfold transition_cycles. set (L := log10R (if Req_EM_T sd 0 then 1 / 10 else sd)).
+  set (s := fit_slope _). set (ic := fit_icpt _).
+  replace (ic + log10R c + s * L) with ((ic + s * L) + log10R c) by ring.
+  now apply Rpower10_plus_log.
+Qed.
+
+Theorem knee_at_load_equivariant c d sd : 0 < c -> 0 < sd -> positive d -> finite_fractures d <> [] ->
+  knee_at (scale_load c d) (c * sd) = knee_at d sd.
+Proof.
+  intros Hc Hsd Hp Hne. unfold knee_at. rewrite ff_scale_load by assumption.
+  destruct (fit_scale_load c (finite_fractures d) Hc (positive_ff d Hp) Hne) as [Hs Hi]. rewrite Hs, Hi.
+  rewrite !transition_cycles_pos by nra. f_equal. rewrite log10R_mult by assumption. ring.
+Qed.
+
+Theorem knee_at_sd_sensitivity d sd q : 0 < sd -> 0 < q ->
+  knee_at d (q * sd) = knee_at d sd * Rpower q (fit_slope (finite_fractures d)).
+Proof.
+  intros Hsd Hq. unfold knee_at. rewrite !transition_cycles_pos by nra.
+  rewrite <- (Rpower10_mul_log q (fit_slope (finite_fractures d))), <- Rpower_plus. f_equal.
+  rewrite log10R_mult by assumption. ring.
+Qed.
